@@ -16,6 +16,8 @@ func main() {
 		os.Exit(cmdCheck(os.Args[2:]))
 	case "recipes":
 		os.Exit(cmdRecipes(os.Args[2:]))
+	case "replay":
+		os.Exit(cmdReplay(os.Args[2:]))
 	case "gengetters":
 		os.Exit(cmdGenGetters(os.Args[2:]))
 	case "list":
